@@ -39,7 +39,11 @@ CLAIM = dict(
     technique="Lean 4 theorems over a hand-written model + differential correspondence + Lean spec as oracle")
 
 THEOREMS = ["link_tables", "validTree_iff", "validTree_connects", "aStar_path", "copyAndDisconnect_live",
-            "walk_hops", "ldf_hops", "nerNet_edges_partial", "routeNet_repaired_live", "routeNet_tree_partial"]
+            "walk_hops", "ldf_hops", "nerNet_edges_partial", "routeNet_repaired_live", "routeNet_tree_partial",
+            # round 2: cross-model consistency with C11 and what it buys
+            "cross_link_tables", "cross_lengths", "cross_torusPath", "cross_ldf", "cross_hexagons",
+            "cross_linksBetween", "meshLen_is_distance", "torusLen_is_distance", "hexagons_exact", "torus_route",
+            "mesh_route", "forest_unfolds", "nerNet_valid", "nerNet_only_oracle_errors"]
 
 RULE = ("machines 1x1..12x12 (incl. 1xN, 2xN), torus / mesh / partly wrapped, 0-30% dead directed links (half of them "
         "dead in one direction only), dead chips; one net per case with fan-out 0-12, sinks on the source chip, "
